@@ -125,7 +125,10 @@ func c20Scenario(maxLen int) *explore.Scenario {
 		Run: func(x *explore.X) (r explore.Result) {
 			k := kinds[x.Choose("spec", len(kinds))]
 			cacheAtStart := x.Choose("cache-at-construction", 2) == 0
-			srv13 := x.Choose("server", 2) == 1
+			// 0 TLS 1.2; 1 TLS 1.3; 2 TLS 1.3 whose suite choice changed since the session was issued
+			// (another suite of the same hash: the PSK stays usable, RFC 8446 4.2.11)
+			srvKind := x.Choose("server", 3)
+			srv13 := srvKind >= 1
 			var seq []c20Op
 			for i := 0; i < maxLen; i++ {
 				o := c20Op(x.Choose("op", int(opCount)))
@@ -148,6 +151,9 @@ func c20Scenario(maxLen int) *explore.Scenario {
 				return
 			}
 			what := fmt.Sprintf("spec=%s cache-at-construction=%v server13=%v calls=%v", k.name, cacheAtStart, srv13, names)
+			if srvKind == 2 {
+				what += " server-suite=TLS_CHACHA20_POLY1305_SHA256 (the session's is another SHA-256 suite)"
+			}
 			ccfg := peer.ClientConfig(name)
 			ccfg.OmitEmptyPsk = true
 			if cacheAtStart {
@@ -188,7 +194,12 @@ func c20Scenario(maxLen int) *explore.Scenario {
 				})
 				return
 			}
-			hs = peer.Run(ccfg, byName[k.id], scfg, peer.Opts{Echo: true, Prepare: func(uc *tls.UConn) error {
+			var unhook func()
+			hs = peer.Run(ccfg, byName[k.id], scfg, peer.Opts{Echo: true, OnConns: func(_ *tls.UConn, s *tls.Conn) {
+				if srvKind == 2 {
+					unhook = installHooks(s, &connHooks{Suite13: tls.TLS_CHACHA20_POLY1305_SHA256})
+				}
+			}, Prepare: func(uc *tls.UConn) error {
 				u = uc
 				for i, o := range seq[:len(seq)-1] {
 					if stop {
@@ -290,6 +301,9 @@ func c20Scenario(maxLen int) *explore.Scenario {
 				}
 				return nil
 			}})
+			if unhook != nil {
+				unhook()
+			}
 			r.Nontrivial = true
 			r.Class = what
 			r.Obs = strings.Join(verdicts, ";")
